@@ -55,8 +55,13 @@ fn fwd(op: &Op, _ctx: &dyn Context, operands: &mut dyn CoordinateSet) -> usize {
     let H = F * t0.powf(B);
     let G = (F - 1.0 / F) / 2.0;
     let gamma_0 = (alpha.sin() / D).asin();
-    // G·tan(gamma_0) is +-1 for alpha = 90: keep rounding from pushing it out of asin's domain
-    let lambda_0 = lonc - (G * gamma_0.tan()).clamp(-1.0, 1.0).asin() / B;
+    // G·tan(gamma_0) is +-1 for alpha = 90: keep rounding from pushing it out of asin's domain,
+    // or into the neighbourhood of +-1, where asin amplifies one ulp to 1e-8 rad (centimetres)
+    let lambda_0 = if ninety {
+        lonc - FRAC_PI_2.copysign(G) / B
+    } else {
+        lonc - (G * gamma_0.tan()).clamp(-1.0, 1.0).asin() / B
+    };
 
     // (uc, vc): Intermediate coordinates of the projection center
     // let vc = 0.0;
@@ -151,8 +156,13 @@ fn inv(op: &Op, _ctx: &dyn Context, operands: &mut dyn CoordinateSet) -> usize {
     let H = F * t0.powf(B);
     let G = (F - 1.0 / F) / 2.0;
     let gamma_0 = (alpha.sin() / D).asin();
-    // G·tan(gamma_0) is +-1 for alpha = 90: keep rounding from pushing it out of asin's domain
-    let lambda_0 = lonc - (G * gamma_0.tan()).clamp(-1.0, 1.0).asin() / B;
+    // G·tan(gamma_0) is +-1 for alpha = 90: keep rounding from pushing it out of asin's domain,
+    // or into the neighbourhood of +-1, where asin amplifies one ulp to 1e-8 rad (centimetres)
+    let lambda_0 = if ninety {
+        lonc - FRAC_PI_2.copysign(G) / B
+    } else {
+        lonc - (G * gamma_0.tan()).clamp(-1.0, 1.0).asin() / B
+    };
 
     // (uc, vc): Intermediate coordinates of the projection center
     // let vc = 0.0;
